@@ -846,6 +846,10 @@ class Engine:
         if op.endswith("withoverflow"):
             base = op[:-len("withoverflow")]
             r = self.binop(base, a, b, opty, opty)
+            if is_const(a) and is_const(b) and a[1] in INT_TYS and a[1] == b[1] and base in ("add", "sub", "mul"):
+                # exact: does the unbounded result leave the machine type?
+                x = {"add": a[2] + b[2], "sub": a[2] - b[2], "mul": a[2] * b[2]}[base]
+                return ('agg', 'tuple', 0, (r, mk_bool(wrap_int(a[1], x) != x)))
             return ('agg', 'tuple', 0, (r, ('op', base + '_overflows', 'bool', a, b)))
         if op.endswith("unchecked"): op = op[:-len("unchecked")]
         if op in CMP:
